@@ -263,6 +263,18 @@ def gen_c15(rnd, n, thorough=False):
             add('hmany', 'hmany f %d %d %d %s' % (rnd.pick([-1, 0]), now, len(pts), ' '.join('%d %016x' % p for p in pts)))
         tags['kind'] = kind
         cases.append({'id': 'c15-%d' % c, 'lines': lines, 'tags': tags})
+    # counts whose size in bytes wraps 64 (or 32, 63) bits, with nothing / a little / a point behind them
+    lines = []
+    wraps = [2 ** 62, 2 ** 62 + 1, 2 ** 63, 2 ** 63 + 2 ** 62, 3 * 2 ** 62 + 1, (2 ** 64 + 8) // 12, (2 ** 64 + 12) // 12, (2 ** 65 + 4) // 12 + 1, (2 ** 64) // 12 + 1,
+             (2 ** 64) // 8, (2 ** 64) // 8 + 1, (2 ** 32) // 12 + 1, (2 ** 32 + 12) // 12, (2 ** 31) // 12 + 1, 2 ** 61, 2 ** 60 + 2 ** 62]
+    for cnt in wraps:
+        for tail in (0, 8, 12, 24):
+            lines.append('hdec points %s' % hx(be64(cnt % 2 ** 64) + bytes(rnd.getrandbits(8) for _ in range(tail))))
+    for cnt in [2 ** 32 // 8 + 1, 2 ** 31 // 8 + 1, 2 ** 29, 2 ** 28 + 1, 2 ** 32 - 1]:
+        for tail in (0, 8, 16):
+            # a series whose count = (until - from) / step: from 0, step 1, until = count
+            lines.append('hdec series %s' % hx(be32(0) + be32(cnt % 2 ** 32) + be32(1) + bytes(rnd.getrandbits(8) for _ in range(tail))))
+    cases.append({'id': 'c15-countwrap', 'lines': lines, 'tags': {'ops': {'hdec': len(lines)}, 'kind': 'count_wrap_sweep'}})
     return cases
 
 
@@ -313,6 +325,24 @@ def gen_c06(rnd, n, thorough=False):
             rnow = now - rnd.randint(1, 3 * layout[0][0]) if rnd.chance(0.25) else now      # a reader whose clock lags the writer's
             lines.append("clixread f %d %d %d" % (max(fr, 0), max(un, 0), rnow))
         cases.append({'id': 'c06-%d' % c, 'lines': lines, 'tags': {'layout': lname, 'writer': writer, 'levels': k, 'method': m}})
+        if rnd.chance(0.15):
+            # a decimal xFilesFactor met EXACTLY (j known of 10 finer slots): both writers decide in float32
+            j = rnd.pick([1, 2, 3, 4, 6, 7, 8, 9])
+            xd = f32bits(j / 10)
+            lay = [(1, 10), (10, 10)] if rnd.chance(0.6) else [(1, 20), (10, 12), (100, 6)]
+            nw = 1700000000 + 10 * rnd.randint(0, 10 ** 5) + 9
+            base = nw - nw % 10
+            ptsd = [(base + i, fbits(float(rnd.randint(1, 9)))) for i in rnd.sample(range(10), j)]
+            for wr in ('whispertool', 'go-whisper'):
+                ll = []
+                if wr == 'whispertool':
+                    ll += ["create f %s m %d x %08x" % (fmt_layout(lay), m, xd), "many f -1 %d %d %s" % (nw, len(ptsd), " ".join("%d %016x" % tv for tv in ptsd)), "sync f"]
+                    ll += ["dfetch f %d %d %d %d" % (a_, nw - lay[a_][0] * lay[a_][1] + 1, nw, nw) for a_ in range(len(lay))]      # the file whispertool wrote is the one the model (and the reference writer) writes
+                    ll += ["drop f"]
+                else:
+                    ll += ["gwcreate f %s m %d x %08x" % (fmt_layout(lay), m, xd), "gwmany f %d %d %s" % (nw, len(ptsd), " ".join("%d %016x" % tv for tv in ptsd)), "gwclose f"]
+                ll += ["clixread f %d %d %d" % (nw - 95, nw, nw), "clixread f %d %d %d" % (nw - 9, nw, nw)]
+                cases.append({'id': 'c06-%d-xff-%s' % (c, wr[:2]), 'lines': ll, 'tags': {'layout': 'tens_exact', 'writer': wr + '_decimal_xff', 'levels': len(lay), 'method': m}})
         if writer == 'whispertool' and rnd.chance(0.12):
             # created again over the file that is there, with a smaller (or larger) layout: the new file is
             # exactly as long as its header says
